@@ -10,7 +10,13 @@
 (*    (before / after the roster is written), while the CONFIGURE or START *)
 (*    command is on its way, while the KILL calls of a teardown or of a    *)
 (*    reconciliation are on their way (kill), while the answer to a         *)
-(*    RECONCILE call is on its way (drop: the answer is lost).              *)
+(*    RECONCILE call is on its way (drop: the answer is lost);              *)
+(*  - one KILL call of a reconciliation round may be refused by the master *)
+(*    (lost); the disconnection that is then due comes once the round is   *)
+(*    over;                                                                 *)
+(*  - while a teardown is held at its KILL calls (or parked between the    *)
+(*    read and the write-back of the roster) the driver may create another *)
+(*    environment; the teardown goes on when that request is over.         *)
 (* Each action is wrapped in G_<Action> so that TLC labels the steps.      *)
 (***************************************************************************)
 EXTENDS Restart
@@ -18,15 +24,22 @@ EXTENDS Restart
 \* The generator's own clock: the first fault comes at a depth drawn at the start, the following ones
 \* after a drawn gap, so that the simulated behaviours reach the late phases of an environment's life.
 CONSTANTS FaultStarts, FaultGaps
-VARIABLES tick, fstart, whole   \* whole: no update of the last RECONCILE answer has been delivered yet
-gvars == <<vars, tick, fstart, whole>>
-Tk == tick' = tick + 1 /\ fstart' = fstart /\ whole' = whole
-TkW(b) == tick' = tick + 1 /\ fstart' = fstart /\ whole' = b
+VARIABLES tick, fstart, whole,  \* whole: no update of the last RECONCILE answer has been delivered yet
+          flav,                 \* how the last lost KILL call was lost: "" | "lost" | "refused" | "refusedmany" (others alive)
+          ovl                   \* 0 | 1: a deployment wrote the roster while a teardown was held | 2: ... and the stream
+                                \* was dropped after that teardown was over
+gvars == <<vars, tick, fstart, whole, flav, ovl>>
+Keep == flav' = flav /\ ovl' = ovl
+Tk == tick' = tick + 1 /\ fstart' = fstart /\ whole' = whole /\ Keep
+TkW(b) == tick' = tick + 1 /\ fstart' = fstart /\ whole' = b /\ Keep
 TkF == tick' = tick + 1 /\ fstart' \in {tick + g : g \in FaultGaps} /\ whole' = whole
 
-Quiet == up /\ conn = "up" /\ rq = {} /\ rcv = {}
+Quiet == up /\ conn = "up" /\ rq = {} /\ rcv = {} /\ kq = {}
 NoneTransient == \A e \in Envs : env[e] \notin Transient
-DriverFree == Quiet /\ NoneTransient
+DriverFree == Quiet /\ NoneTransient /\ ~owed
+\* a teardown held by the driver, nothing else going on
+TeardownHeld == \E e \in Envs : env[e] \in {"rewriting", "killing"} /\ \A o \in Envs \ {e} : env[o] \notin Transient
+OthersDone(e) == \A o \in Envs \ {e} : env[o] \notin Transient
 AllStaging(e) == \A t \in etasks[e] : mt[t].st = "staging"
 
 FaultEnvOK(kind) ==
@@ -47,14 +60,23 @@ G_StoreFid == StoreFid /\ Tk
 G_Reconcile == Reconcile /\ TkW(TRUE)
 G_ReconcileUpdate(t) == ReconcileUpdate(t) /\ TkW(FALSE)
 G_KillOnReconcile(t) == KillOnReconcile(t) /\ Tk
+G_KillArrives(t) == KillArrives(t) /\ Tk
+TkL(f) == tick' = tick + 1 /\ fstart' = fstart /\ whole' = whole /\ flav' = f /\ ovl' = ovl
+G_KillLost(t) == NoneTransient /\ ~owed /\ KillLost(t) /\ TkL("lost")
+G_KillRefused(t) ==
+  /\ NoneTransient /\ ~owed /\ KillRefused(t)
+  /\ TkL(IF Cardinality({x \in Tasks : Alive(x)}) >= 2 THEN "refusedmany" ELSE "refused")
 G_RefreshOnReconcile(t) == RefreshOnReconcile(t) /\ Tk
 
-G_NewEnv(e) == DriverFree /\ NewEnv(e) /\ Tk
+G_NewEnv(e) == (DriverFree \/ (Quiet /\ ~owed /\ TeardownHeld)) /\ NewEnv(e) /\ Tk
 G_Launch(e, S) == Launch(e, S) /\ Tk
 G_Lock(e) == Lock(e) /\ Tk
 \* (a deployment parked by the driver, like a report held back by it, is let go only once recovery has settled)
 Settled == rq = {} /\ rcv = {}
-G_RosterAppend(e) == (conn # "up" \/ Settled) /\ RosterAppend(e) /\ Tk
+G_RosterAppend(e) ==
+  /\ (conn # "up" \/ Settled) /\ RosterAppend(e)
+  /\ tick' = tick + 1 /\ fstart' = fstart /\ whole' = whole /\ flav' = flav
+  /\ ovl' = IF \E o \in Envs \ {e} : env[o] \in {"rewriting", "killing"} THEN 1 ELSE ovl
 \* the agent's report is held back until the roster is written and the event stream can carry it (a report
 \* sent while the stream is down is lost; Restart does not model what the core has learned), or the core is gone
 G_TaskRunning(t) == (~up \/ (t \in roster /\ conn = "up" /\ Settled)) /\ TaskRunning(t) /\ Tk
@@ -64,28 +86,42 @@ G_StartSend(e) == DriverFree /\ StartSend(e) /\ Tk
 G_StartDone(e) == Quiet /\ StartDone(e) /\ Tk
 G_Release(e) == DriverFree /\ Release(e) /\ Tk
 G_RosterRemove(e) == RosterRemove(e) /\ Tk
-G_KillSend(e) == Quiet /\ KillSend(e) /\ Tk
+G_RosterRead(e) == RosterRead(e) /\ Tk
+G_RosterWrite(e) == Quiet /\ OthersDone(e) /\ RosterWrite(e) /\ Tk
+G_KillSend(e) == Quiet /\ OthersDone(e) /\ KillSend(e) /\ Tk
 G_EnvError(e) == EnvError(e) /\ Tk
 
 \* kill: recovery settled, or while the KILL calls of a reconciliation are being sent
 G_Crash ==
-  /\ tick >= fstart /\ up /\ conn = "up" /\ rq = {} /\ FaultEnvOK("crash") /\ (rcv = {} \/ NoneTransient) /\ Something
-  /\ Crash /\ TkF
+  /\ tick >= fstart /\ up /\ conn = "up" /\ rq = {} /\ FaultEnvOK("crash") /\ ((rcv = {} /\ kq = {}) \/ NoneTransient) /\ Something
+  /\ Crash /\ TkF /\ flav' = flav /\ ovl' = 0
 \* drop: recovery settled, or while the whole answer to a RECONCILE call is still on its way (it is lost)
 AnswerPending == rq # {} /\ whole /\ NoneTransient
 G_DropConnection ==
-  /\ tick >= fstart /\ up /\ conn = "up" /\ rcv = {} /\ (rq = {} \/ AnswerPending) /\ FaultEnvOK("drop") /\ Something
-  /\ DropConnection /\ TkF
+  /\ (tick >= fstart \/ owed) /\ up /\ conn = "up" /\ rcv = {} /\ kq = {} /\ (rq = {} \/ (AnswerPending /\ ~owed))
+  /\ FaultEnvOK("drop") /\ Something
+  /\ DropConnection /\ TkF /\ flav' = flav /\ ovl' = (IF ovl = 1 /\ NoneTransient THEN 2 ELSE ovl)
 
 GenNext ==
   \/ G_CoreStart \/ G_Subscribe \/ G_Resubscribe \/ (\E id \in 1..(MaxCrash + 2) : G_Subscribed(id)) \/ G_StoreFid \/ G_Reconcile
   \/ \E t \in Tasks : G_ReconcileUpdate(t) \/ G_KillOnReconcile(t) \/ G_RefreshOnReconcile(t) \/ G_TaskRunning(t)
+                     \/ G_KillArrives(t) \/ G_KillLost(t) \/ G_KillRefused(t)
   \/ \E e \in Envs : \/ G_NewEnv(e) \/ (\E S \in SUBSET Tasks : G_Launch(e, S)) \/ G_Lock(e) \/ G_RosterAppend(e)
                      \/ G_ConfigureSend(e) \/ G_ConfigureDone(e) \/ G_StartSend(e) \/ G_StartDone(e)
-                     \/ G_Release(e) \/ G_RosterRemove(e) \/ G_KillSend(e) \/ G_EnvError(e)
+                     \/ G_Release(e) \/ G_RosterRemove(e) \/ G_RosterRead(e) \/ G_RosterWrite(e) \/ G_KillSend(e) \/ G_EnvError(e)
   \/ G_Crash \/ G_DropConnection
 
-GenInit == Init /\ tick = 0 /\ fstart \in FaultStarts /\ whole = FALSE
+GenInit == Init /\ tick = 0 /\ fstart \in FaultStarts /\ whole = FALSE /\ flav = "" /\ ovl = 0
 GenSpec == GenInit /\ [][GenNext]_gvars
 TickBound == tick < 48
+
+\* Probes: "invariants" whose shortest counterexamples are the scenario shapes every run must contain.
+AllDead == \A t \in Tasks : ~Alive(t)
+Recovered == Quiet /\ ~owed /\ nsubl >= 2 /\ NoneTransient
+\* leftovers of a previous life, a KILL accepted and lost, the round that is due, everything dead
+ProbeLostKill == ~(flav = "lost" /\ life >= 2 /\ Recovered /\ AllDead)
+\* the same with a KILL refused while other leftovers keep the core talking to the master
+ProbeRefusedKill == ~(flav = "refusedmany" /\ life >= 2 /\ Recovered /\ AllDead)
+\* a deployment completed while a teardown was held, that teardown over, then a reconnection
+ProbeOverlap == ~(ovl = 2 /\ Recovered /\ \E e \in Envs : env[e] = "configured")
 =============================================================================
